@@ -23,19 +23,20 @@ package influxdb
 //@ pred HasBuf(f *flush) := f.buffer != nil && f.writer != nil
 
 //@ func (*flush).flush
-//@   requires FlushOK(f) && HasBuf(f)
+//@   requires FlushOK(f) && HasBuf(f) && 1 <= f.metricCount && f.metricCount <= f.metricsPerBatch
+//@   callsite cb requires 1 <= seriesCount && seriesCount <= f.metricsPerBatch && seriesCount == f.metricCount && buf == f.buffer
 //@   ensures  FlushInv(f) && f.metricCount == 0
 //@   modifies everything
 
 //@ func (*flush).maybeFlush
-//@   requires FlushOK(f) && HasBuf(f)
+//@   requires FlushOK(f) && HasBuf(f) && 1 <= f.metricCount && f.metricCount <= f.metricsPerBatch
 //@   ensures  FlushInv(f)
 //@   modifies everything
 
 // finish sends what is left and gives the buffer back -- if there still is one (getBuffer returns none once
 // the context is done).
 //@ func (*flush).finish
-//@   requires FlushOK(f) && HasBuf(f)
+//@   requires FlushOK(f) && HasBuf(f) && f.metricCount < f.metricsPerBatch
 //@   modifies everything
 
 // (formatNameTags sorts and appends inside slices it allocates itself; stated coarsely as "may write string slices")
@@ -46,24 +47,24 @@ package influxdb
 //@   modifies allElems(string)
 
 //@ func (*flush).addCounter
-//@   requires FlushOK(f) && HasBuf(f)
+//@   requires FlushInv(f) && HasBuf(f)
 //@   ensures  FlushInv(f)
 //@   modifies everything
 //@ func (*flush).addGauge
-//@   requires FlushOK(f) && HasBuf(f)
+//@   requires FlushInv(f) && HasBuf(f)
 //@   ensures  FlushInv(f)
 //@   modifies everything
 //@ func (*flush).addSet
-//@   requires FlushOK(f) && HasBuf(f)
+//@   requires FlushInv(f) && HasBuf(f)
 //@   ensures  FlushInv(f)
 //@   modifies everything
 //@ func (*flush).addBaseTimer
-//@   requires FlushOK(f) && HasBuf(f)
+//@   requires FlushInv(f) && HasBuf(f)
 //@   ensures  FlushInv(f)
 //@   modifies everything
 // A timer carries a histogram that may be empty (bucket limit 0) -- see statsd.emptyHistogram.
 //@ func (*flush).addHistogramTimer
-//@   requires FlushOK(f) && HasBuf(f) && timer.Histogram != nil
+//@   requires FlushInv(f) && HasBuf(f) && timer.Histogram != nil
 //@   ensures  FlushInv(f)
 //@   loop 1 invariant forall k gostatsd.HistogramThreshold :: visited(1)[k] ==> len(sb.buf) > 0
 //@   modifies everything
@@ -80,7 +81,8 @@ package influxdb
 //@   modifies everything
 //@   preserves influxdb.flush, influxdb.Client
 
-//@ pred FlushInv(f *flush) := FlushOK(f) && (f.buffer == nil) == (f.writer == nil) && (f.buffer == nil ==> f.metricCount == 0)
+// (C17: fewer than metricsPerBatch series are pending between two add calls, so no batch exceeds the limit)
+//@ pred FlushInv(f *flush) := FlushOK(f) && (f.buffer == nil) == (f.writer == nil) && (f.buffer == nil ==> f.metricCount == 0) && f.metricCount < f.metricsPerBatch
 //@ func (*Client).processMetrics$2
 //@   iter invariant FlushInv(fl)
 //@   requires FlushInv(fl)
